@@ -595,6 +595,47 @@ pub fn run(tier: Tier) -> i32 {
             }
         });
         run.add("long_history_events", steps.load(Ordering::Relaxed));
+
+        // (g2) very long histories from ONE address: every single letter and the all-letters round robin, repeated
+        //      past 2^16 (quick: 70 000) / 2^18 (thorough: 270 000) events on one tracker - per-aircraft counters
+        //      and accumulators narrower than the feed is long (round 7: message counter narrowed to u16)
+        let vlen: usize = if tier.thorough() { 270_000 } else { 70_000 };
+        let mut vwords: Vec<Vec<usize>> = (0..n).map(|a| vec![a]).collect();
+        vwords.push((0..n).collect());
+        let vsteps = AtomicU64::new(0);
+        vwords.par_iter().for_each(|w| {
+            let frames: Vec<Vec<u8>> = w
+                .iter()
+                .map(|i| match &alpha[*i] {
+                    Ev::Frame { bytes, .. } => bytes.clone(),
+                    _ => vec![],
+                })
+                .collect();
+            let res = guarded(move || {
+                let mut planes = Airplanes::new();
+                let mut fed = 0u64;
+                for i in 0..vlen {
+                    if let Ok(f) = Frame::from_bytes(&frames[i % frames.len()]) {
+                        planes.action(f, rx, 2000.0);
+                        fed += 1;
+                    }
+                }
+                let _ = planes.to_string();
+                fed
+            });
+            vsteps.fetch_add(vlen as u64, Ordering::Relaxed);
+            if let Err(p) = res {
+                let names: Vec<String> = w.iter().map(|i| alpha[*i].name()).collect();
+                run.violation(Violation {
+                    oracle: "no-panic".into(),
+                    class: "tracker-very-long-history-panic".into(),
+                    input: format!("periodic word [{}] repeated up to {vlen} events, rx={rx:?} range=2000", names.join(" ; ")),
+                    expected: "no panic".into(),
+                    observed: format!("panic: {p} @ {}", last_panic_loc()),
+                });
+            }
+        });
+        run.add("very_long_history_events", vsteps.load(Ordering::Relaxed));
     }
 
     run.sample(json!({"bytes": "", "ops": ["from_bytes"]}));
